@@ -70,6 +70,9 @@ HostnameProofs.vos HostnameProofs.vok HostnameProofs.required_vos: HostnameProof
 HostnameInv.vo HostnameInv.glob HostnameInv.v.beautified HostnameInv.required_vo: HostnameInv.v Base.vo Fields.vo SrcFacts.vo Msg.vo SrcDecisions.vo Sim.vo Prober.vo Hostname.vo HostnameProofs.vo
 HostnameInv.vio: HostnameInv.v Base.vio Fields.vio SrcFacts.vio Msg.vio SrcDecisions.vio Sim.vio Prober.vio Hostname.vio HostnameProofs.vio
 HostnameInv.vos HostnameInv.vok HostnameInv.required_vos: HostnameInv.v Base.vos Fields.vos SrcFacts.vos Msg.vos SrcDecisions.vos Sim.vos Prober.vos Hostname.vos HostnameProofs.vos
+HostnameAccept.vo HostnameAccept.glob HostnameAccept.v.beautified HostnameAccept.required_vo: HostnameAccept.v Base.vo Fields.vo SrcFacts.vo Msg.vo SrcDecisions.vo Sim.vo Prober.vo Hostname.vo HostnameProofs.vo HostnameInv.vo
+HostnameAccept.vio: HostnameAccept.v Base.vio Fields.vio SrcFacts.vio Msg.vio SrcDecisions.vio Sim.vio Prober.vio Hostname.vio HostnameProofs.vio HostnameInv.vio
+HostnameAccept.vos HostnameAccept.vok HostnameAccept.required_vos: HostnameAccept.v Base.vos Fields.vos SrcFacts.vos Msg.vos SrcDecisions.vos Sim.vos Prober.vos Hostname.vos HostnameProofs.vos HostnameInv.vos
 HostNet.vo HostNet.glob HostNet.v.beautified HostNet.required_vo: HostNet.v Base.vo Fields.vo SrcFacts.vo Msg.vo SrcDecisions.vo Sim.vo Prober.vo Hostname.vo HostnameProofs.vo
 HostNet.vio: HostNet.v Base.vio Fields.vio SrcFacts.vio Msg.vio SrcDecisions.vio Sim.vio Prober.vio Hostname.vio HostnameProofs.vio
 HostNet.vos HostNet.vok HostNet.required_vos: HostNet.v Base.vos Fields.vos SrcFacts.vos Msg.vos SrcDecisions.vos Sim.vos Prober.vos Hostname.vos HostnameProofs.vos
@@ -181,12 +184,12 @@ Properties_C10.vos Properties_C10.vok Properties_C10.required_vos: Properties_C1
 Properties_C16.vo Properties_C16.glob Properties_C16.v.beautified Properties_C16.required_vo: Properties_C16.v Base.vo Fields.vo SrcFacts.vo Msg.vo SrcDecisions.vo Cache.vo Sim.vo SimProofs.vo Prober.vo Resolver.vo ResolverProofs.vo ResolverInv.vo
 Properties_C16.vio: Properties_C16.v Base.vio Fields.vio SrcFacts.vio Msg.vio SrcDecisions.vio Cache.vio Sim.vio SimProofs.vio Prober.vio Resolver.vio ResolverProofs.vio ResolverInv.vio
 Properties_C16.vos Properties_C16.vok Properties_C16.required_vos: Properties_C16.v Base.vos Fields.vos SrcFacts.vos Msg.vos SrcDecisions.vos Cache.vos Sim.vos SimProofs.vos Prober.vos Resolver.vos ResolverProofs.vos ResolverInv.vos
-Properties_C17.vo Properties_C17.glob Properties_C17.v.beautified Properties_C17.required_vo: Properties_C17.v Base.vo Fields.vo SrcFacts.vo Msg.vo SrcDecisions.vo Sim.vo Hostname.vo HostnameProofs.vo
-Properties_C17.vio: Properties_C17.v Base.vio Fields.vio SrcFacts.vio Msg.vio SrcDecisions.vio Sim.vio Hostname.vio HostnameProofs.vio
-Properties_C17.vos Properties_C17.vok Properties_C17.required_vos: Properties_C17.v Base.vos Fields.vos SrcFacts.vos Msg.vos SrcDecisions.vos Sim.vos Hostname.vos HostnameProofs.vos
-Properties_C08.vo Properties_C08.glob Properties_C08.v.beautified Properties_C08.required_vo: Properties_C08.v Base.vo Fields.vo SrcFacts.vo Msg.vo SrcDecisions.vo Sim.vo Hostname.vo HostnameProofs.vo HostnameInv.vo
-Properties_C08.vio: Properties_C08.v Base.vio Fields.vio SrcFacts.vio Msg.vio SrcDecisions.vio Sim.vio Hostname.vio HostnameProofs.vio HostnameInv.vio
-Properties_C08.vos Properties_C08.vok Properties_C08.required_vos: Properties_C08.v Base.vos Fields.vos SrcFacts.vos Msg.vos SrcDecisions.vos Sim.vos Hostname.vos HostnameProofs.vos HostnameInv.vos
+Properties_C17.vo Properties_C17.glob Properties_C17.v.beautified Properties_C17.required_vo: Properties_C17.v Base.vo Fields.vo SrcFacts.vo Msg.vo SrcDecisions.vo Sim.vo Hostname.vo HostnameProofs.vo HostnameInv.vo HostnameAccept.vo
+Properties_C17.vio: Properties_C17.v Base.vio Fields.vio SrcFacts.vio Msg.vio SrcDecisions.vio Sim.vio Hostname.vio HostnameProofs.vio HostnameInv.vio HostnameAccept.vio
+Properties_C17.vos Properties_C17.vok Properties_C17.required_vos: Properties_C17.v Base.vos Fields.vos SrcFacts.vos Msg.vos SrcDecisions.vos Sim.vos Hostname.vos HostnameProofs.vos HostnameInv.vos HostnameAccept.vos
+Properties_C08.vo Properties_C08.glob Properties_C08.v.beautified Properties_C08.required_vo: Properties_C08.v Base.vo Fields.vo SrcFacts.vo Msg.vo SrcDecisions.vo Sim.vo Prober.vo Hostname.vo HostnameProofs.vo HostnameInv.vo HostnameAccept.vo
+Properties_C08.vio: Properties_C08.v Base.vio Fields.vio SrcFacts.vio Msg.vio SrcDecisions.vio Sim.vio Prober.vio Hostname.vio HostnameProofs.vio HostnameInv.vio HostnameAccept.vio
+Properties_C08.vos Properties_C08.vok Properties_C08.required_vos: Properties_C08.v Base.vos Fields.vos SrcFacts.vos Msg.vos SrcDecisions.vos Sim.vos Prober.vos Hostname.vos HostnameProofs.vos HostnameInv.vos HostnameAccept.vos
 Properties_C01.vo Properties_C01.glob Properties_C01.v.beautified Properties_C01.required_vo: Properties_C01.v Base.vo Fields.vo SrcFacts.vo Msg.vo Decoder.vo Encoder.vo WireSpec.vo DecoderSafety.vo DecoderComplete.vo EncoderProofs.vo WireMsg.vo DecoderMsg.vo EncoderMsg.vo
 Properties_C01.vio: Properties_C01.v Base.vio Fields.vio SrcFacts.vio Msg.vio Decoder.vio Encoder.vio WireSpec.vio DecoderSafety.vio DecoderComplete.vio EncoderProofs.vio WireMsg.vio DecoderMsg.vio EncoderMsg.vio
 Properties_C01.vos Properties_C01.vok Properties_C01.required_vos: Properties_C01.v Base.vos Fields.vos SrcFacts.vos Msg.vos Decoder.vos Encoder.vos WireSpec.vos DecoderSafety.vos DecoderComplete.vos EncoderProofs.vos WireMsg.vos DecoderMsg.vos EncoderMsg.vos
